@@ -189,13 +189,19 @@ def rule_b(ctx):
     X, T = NC.sym("X"), NC.sym("T(self.translation)")
     Rm, Ri = NC.sym("self.rotation"), NC.sym("self.rotation_inv")
     s = Poly.atom("self.scaling")
-    ctx.ob(R, fwd.qname, "call_array(X) = T + s * X . R^T", F == T + (X @ Rm.T()).scale(s), repr(F), fwd.node)
-    ctx.ob(R, inv.qname, "inverse_array(Y) = (1/s) * (Y - T) . R_inv^T", G == ((X - T) @ Ri.T()).scale(s.inv()), repr(G), inv.node)
+    # a term is judged only if it is written in the rule's vocabulary (X, the translation row T(.), the two rotation matrices, the scaling); a call of
+    # a helper or another name in it is something the algebra does not know
+    import re as _re
+    VOCAB = ("X", "T(", "self.rotation", "self.rotation_inv", "self.scaling", "matrix", "offset")
+    def closed(t_):
+        return not [a_ for a_ in _re.findall(r"[A-Za-z_][\w.]*\(?", repr(t_)) if not a_.startswith(VOCAB) and a_ not in ("T",)]
+    ctx.ob(R, fwd.qname, "call_array(X) = T + s * X . R^T", F == T + (X @ Rm.T()).scale(s), repr(F), fwd.node, evidence=closed(F))
+    ctx.ob(R, inv.qname, "inverse_array(Y) = (1/s) * (Y - T) . R_inv^T", G == ((X - T) @ Ri.T()).scale(s.inv()), repr(G), inv.node, evidence=closed(G))
     pairs = [("self.rotation", "self.rotation_inv")]
     c1 = G.subst("X", F).cancel(pairs)
     c2 = F.subst("X", G).cancel(pairs)
-    ctx.ob(R, inv.qname, "inverse_array(call_array(X)) reduces to X", c1 == X, repr(c1), inv.node)
-    ctx.ob(R, fwd.qname, "call_array(inverse_array(X)) reduces to X", c2 == X, repr(c2), fwd.node)
+    ctx.ob(R, inv.qname, "inverse_array(call_array(X)) reduces to X", c1 == X, repr(c1), inv.node, evidence=closed(F) and closed(G))
+    ctx.ob(R, fwd.qname, "call_array(inverse_array(X)) reduces to X", c2 == X, repr(c2), fwd.node, evidence=closed(F) and closed(G))
     ctx.floor(R, 1)
 
 
@@ -260,7 +266,9 @@ def _fold_set_dtype(sd):
                 return Obj(label, {"shape": (4, 2), "__getitem__": lambda x, k, kind=kind: Obj("pt", {"__type__": Opaque("callable", kind if x == [0] else "builtins.other")})})
             try:
                 fo.call(sd.node, [so, coll("P", a), coll("Q", b)])
-            except Raised:
+            except Raised as e_:
+                if not isinstance(getattr(e_, "node", None), ast.Raise):
+                    return None   # an exception of the fold's own making (a look-up on stand-ins), not a `raise` of the code: nothing known
                 if a in MAP and b in MAP:
                     tab.append(f"({a}, {b}): raises although both point classes are supported")
                 continue
